@@ -131,6 +131,43 @@ def sub_varstr(case):
     return {'devs': devs}
 
 
+STR_ALPHABET = ['a', '0', ' ', '\xe9', '\xff', '\u0100', '\u20ac', '\u044f', '\u4e2d', '\U0001f600']
+
+
+def sub_varstr_text(case):
+    """case = list of indices into STR_ALPHABET: varstr() of a text (str is a documented input type).  Whatever bytes
+    the text is turned into, the result must be a well-framed string: CompactSize prefix == number of bytes that
+    follow, shortest prefix, and the bytes are the text in ISO-8859-1 or UTF-8; the same text given as those bytes
+    must give the same result."""
+    from bitcoinlib.encoding import varstr
+    text = ''.join(STR_ALPHABET[i] for i in case)
+    devs = []
+    cls = 'ascii' if all(ord(ch) < 128 for ch in text) else 'latin1' if all(ord(ch) < 256 for ch in text) else 'beyond_latin1'
+    try:
+        got = bytes(varstr(text))
+    except Exception as e:
+        return {'devs': [], 'out': 'text_refused_%s' % cls}
+    try:
+        n, used = codec.cs_decode(got)
+    except Exception:
+        n, used = None, 0
+    rest = got[used:]
+    if n is None or n != len(rest):
+        devs.append({'sig': 'varstr(str)|length_prefix_differs_from_number_of_bytes_that_follow|%s' % cls,
+                     'detail': {'text': text, 'got': got.hex()[:80], 'prefix': n, 'following': len(rest)}})
+    elif got[:used] != codec.cs_encode(n):
+        devs.append({'sig': 'varstr(str)|prefix_not_shortest|%s' % cls, 'detail': {'text': text, 'got': got.hex()[:80]}})
+    else:
+        cands = [text.encode('utf-8')]
+        if cls != 'beyond_latin1':
+            cands.append(text.encode('latin-1'))
+        if rest not in cands:
+            devs.append({'sig': 'varstr(str)|payload_is_not_the_text|%s' % cls, 'detail': {'text': text, 'got': got.hex()[:80]}})
+        elif bytes(varstr(rest)) != got:
+            devs.append({'sig': 'varstr(str)|differs_from_varstr_of_the_same_bytes|%s' % cls, 'detail': {'text': text}})
+    return {'devs': devs, 'out': 'text_%s' % cls}
+
+
 def sub_num(case):
     from bitcoinlib.scripts import encode_num, decode_num
     lo, hi = case
@@ -447,7 +484,7 @@ def sub_concat(case):
     return {'devs': devs, 'n': 4, 'out': outs}
 
 
-SUBS = {'build': sub_build, 'concat': sub_concat, 'cs': sub_cs, 'cs_nonminimal': sub_cs_nonminimal, 'varstr': sub_varstr, 'num': sub_num,
+SUBS = {'varstr_text': sub_varstr_text, 'build': sub_build, 'concat': sub_concat, 'cs': sub_cs, 'cs_nonminimal': sub_cs_nonminimal, 'varstr': sub_varstr, 'num': sub_num,
         'numdec': sub_numdec, 'pack': sub_pack, 'script': sub_script}
 
 # ---- a failed call must not change what later calls answer
@@ -553,6 +590,8 @@ def run(ctx):
     for ln in (0xfc, 0xfd, 0xfe, 0xffff, 0x10000) + (() if q else (0x10001, 0x20000)):
         vs += [[ln, 0], [ln, 0x61]]
     ctx.pmap('varstr', vs)
+    na = len(STR_ALPHABET)
+    ctx.pmap('varstr_text', [list(x) for l in range(0, 4 if q else 5) for x in itertools.product(range(na), repeat=l)])
     # ---- script numbers
     nums = _ranges(-(1 << 16), (1 << 16) + 1, 2048)
     for k in range(1, 32 if q else 64):
